@@ -294,6 +294,17 @@ def run_history(acc, rng, hist_seed):
                         send_change(name, text)
                     else:
                         send_open(name, text)
+            elif r < 0.29 and [n_ for n_ in names if n_ not in open_bufs and n_ != "main.asm"]:
+                # a file that is not open in the editor changes on disk (another program, a workspace edit applied to a closed
+                # file); the next change of an open buffer makes the server look again
+                name = rng.choice([n_ for n_ in names if n_ not in open_bufs and n_ != "main.asm"])
+                disk[name] = lib_program(rng, rng.randrange(3)) if name.startswith("lib") else "orphan2: nop\n"
+                with open(pr.path(name), "w", newline="") as fh:
+                    fh.write(disk[name])
+                events.append(("disk-change", name, len(disk[name])))
+                flags.add("disk-change")
+                if "main.asm" in open_bufs:
+                    send_change("main.asm", open_bufs["main.asm"])
             elif r < 0.4:
                 # whole-text replacement (sometimes dropping or adding imports)
                 text = small_program(rng)
